@@ -551,10 +551,14 @@ def merge_oracle(case, mc, cm):
 
 
 # --------------------------------------- part 5: second value column, other agg
-SIG_EXTRA = "C08:extra-value-column-dropped"
+# regression corpus of defect D20 (fixed): coarsen_cooler used to drop every requested value column but `count`
 AGG_CORPUS = [
-    {"fn": "coarsen_cooler(columns=[count,w])", "widths": [[10, 10, 10, 10]], "symmetric": True,
+    {"fn": "coarsen_cooler(columns=...)", "widths": [[10, 10, 10, 10]], "symmetric": True, "columns": ["count", "w"],
      "pixels": [[0, 0, 1], [0, 1, 2], [2, 3, 4]], "extra": [5, 7, 9], "k": 2, "chunksize": 10, "agg": "max"},
+    {"fn": "coarsen_cooler(columns=...)", "widths": [[10, 10, 10, 10]], "symmetric": True, "columns": ["w"],
+     "pixels": [[0, 0, 1], [0, 1, 2], [2, 3, 4]], "extra": [5, 7, 9], "k": 2, "chunksize": 10, "agg": "sum"},
+    {"fn": "coarsen_cooler(columns=...)", "widths": [[3, 4, 5], [6]], "symmetric": False, "columns": ["count", "w"],
+     "pixels": [[0, 0, 1], [1, 0, 2], [2, 3, 4], [3, 3, 1]], "extra": [5, -7, 9, 0], "k": 3, "chunksize": 1, "agg": "min"},
 ]
 
 
@@ -564,50 +568,56 @@ def part_agg(ctx):
     tmpdir = ctx.tmp / "agg"
     tmpdir.mkdir(exist_ok=True)
     cases = [dict(c) for c in AGG_CORPUS]
-    for i in range(8 if thorough else 3):
+    for i in range(10 if thorough else 4):
         widths, kind = G.random_widths(rng, maxbins=6)
         symm = rng.random() < 0.5
         nb = sum(len(w) for w in widths)
         pixels = [list(p) for p in G.random_pixels(rng, nb, symm, rng.choice(["dense", "sparse"]))]
         extra = [rng.randint(-5, 20) for _ in pixels]
-        cases.append({"fn": "coarsen_cooler(columns=[count,w])", "widths": widths, "symmetric": symm, "pixels": pixels, "extra": extra,
+        cases.append({"fn": "coarsen_cooler(columns=...)", "widths": widths, "symmetric": symm, "pixels": pixels, "extra": extra,
+                      "columns": rng.choice([["count", "w"], ["count", "w"], ["w"]]),
                       "k": rng.choice([2, 3]), "chunksize": rng.choice([1, 2, 7]), "agg": rng.choice(["max", "min", "sum"])})
     for i, case in enumerate(cases):
-        ctx.case(case, nontrivial=len(case["pixels"]) > 0, kind="agg:" + case["agg"])
-        for bad, sig in agg_run(tmpdir, f"g{i}", case):
-            ctx.fail(case, bad, sig)
+        ctx.case(case, nontrivial=len(case["pixels"]) > 0, kind="agg:" + case["agg"] + ":" + "+".join(case["columns"]))
+        for bad in agg_run(tmpdir, f"g{i}", case):
+            ctx.fail(case, bad, None)
     return len(cases)
 
 
 def agg_run(tmpdir, tag, case):
-    """returns a list of (violation, signature).  The `count` column is checked on its own so that the
-    missing-extra-column finding cannot hide a wrong count."""
+    """returns the list of violations: every requested value column must be present in the output and
+    hold the requested aggregate of the block (sum unless said otherwise)"""
     import cooler
     blocks = blocks_from_widths(case["widths"])
     a, o = tmpdir / f"{tag}_a.cool", tmpdir / f"{tag}_o.cool"
+    want = list(case["columns"])
 
     def go():
         G.make_cooler(a, blocks, case["pixels"], case["symmetric"], extra=case["extra"])
-        cooler.coarsen_cooler(str(a), str(o), case["k"], chunksize=case["chunksize"], columns=["count", "w"], agg={"w": case["agg"]})
+        cooler.coarsen_cooler(str(a), str(o), case["k"], chunksize=case["chunksize"], columns=want, agg={"w": case["agg"]})
         cols = [c for c in cooler.Cooler(str(o)).pixels()[:0].columns if c not in ("bin1_id", "bin2_id")]
-        return cols, G.read_cooler(o, cols=tuple(c for c in ("count", "w") if c in cols))
+        p = cooler.Cooler(str(o)).pixels()[:]
+        keys = [[int(x), int(y)] for x, y in zip(p["bin1_id"].values, p["bin2_id"].values)]
+        vals = {c: [int(v) for v in p[c].values] for c in cols}
+        return cols, keys, vals
     st, res = G.guarded(go, 60)
     for p in (a, o):
         if p.exists():
             os.remove(p)
     if st != "ok":
-        return [({"exception": st}, None)]
-    cols, out = res
+        return [{"exception": st, "type": res}]
+    cols, keys, vals = res
     px4 = [[p[0], p[1], p[2], w] for p, w in zip(case["pixels"], case["extra"])]
-    e1 = G.oracle_pixels(blocks, px4, case["k"], "sum", 2)
-    e2 = G.oracle_pixels(blocks, px4, case["k"], case["agg"], 3)
+    exp = {"count": G.oracle_pixels(blocks, px4, case["k"], "sum", 2),
+           "w": G.oracle_pixels(blocks, px4, case["k"], case["agg"], 3)}
     bad = []
-    if "count" not in cols or [p[:3] for p in out["pixels"]] != e1:
-        bad.append(({"what": "count column", "got": out["pixels"][:30], "expected": e1[:30]}, None))
-    if "w" not in cols:
-        bad.append(({"what": "requested value column 'w' is missing from the coarsened cooler", "columns": cols}, SIG_EXTRA))
-    elif [[p[0], p[1], p[3]] for p in out["pixels"]] != e2:
-        bad.append(({"what": "value column w (agg=%s)" % case["agg"], "got": out["pixels"][:30], "expected": e2[:30]}, None))
+    for c in want:
+        if c not in cols:
+            bad.append({"what": f"requested value column '{c}' is missing from the coarsened cooler", "columns": cols})
+        else:
+            got = [k_ + [v] for k_, v in zip(keys, vals[c])]
+            if got != exp[c]:
+                bad.append({"what": f"value column {c}", "got": got[:30], "expected": exp[c][:30]})
     return bad
 
 
@@ -654,5 +664,6 @@ def replay(ctx, case):
         res = merge_run(tmpdir, "replay", case)
         return res[0] == "ok" and merge_oracle(case, res[1], res[2]) is None
     if fn.startswith("coarsen_cooler(columns"):
+        case.setdefault("columns", ["count", "w"])
         return not agg_run(tmpdir, "replay", case)
     raise ValueError("unknown case kind " + fn)
